@@ -5,6 +5,9 @@ Property theorems only; helper lemmas live in Proof/YamlEmit.lean.  `Rev.v1` is 
 tree (the marker is regenerated from the source on every run).
 -/
 import SuccinctlyVerif.Proof.YamlEmit
+import SuccinctlyVerif.Proof.YamlAnchor
+import SuccinctlyVerif.Proof.YamlResolve
+import SuccinctlyVerif.Proof.YamlBlock
 namespace SV.Props.C15
 open SV.Yaml SV.Yaml.Emit
 
@@ -224,5 +227,165 @@ example : loadScalar resolvePlainRs .blockValue (streamSmartQuoted .v0 ".5".toLi
     some (.float .finite) := by decide
 /-- `-I 0`: the DOM emitter's indentation step was empty. -/
 example : domIndentWidth .v0 0 = 0 := by decide
+
+/-! ## `resolve_plain` and the core schema -/
+
+/-- `resolve_plain` (the loader's resolver, model of `src/yaml/scalar.rs`) IS the YAML 1.2 core
+schema resolution `coreResolve` (written from §10.3.2) on every text, with exactly the exceptions
+the source documents — `deviates s`: the core schema types `s` as an integer outside `i64`, or as a
+decimal float whose value overflows `f64`. -/
+theorem resolve_plain_is_core_schema (s : List Char) (h : deviates s = false) :
+    resolvePlainRs s = coreResolve s := resolve_agrees_core s h
+
+/-- The exceptions are real: a decimal integer beyond `i64` becomes a float, a based one and an
+overflowing float stay strings. -/
+example : deviates "9223372036854775808".toList = true ∧
+    resolvePlainRs "9223372036854775808".toList = .float .finite ∧
+    coreResolve "9223372036854775808".toList = .int 9223372036854775808 := by decide
+example : deviates "0x8000000000000000".toList = true ∧
+    resolvePlainRs "0x8000000000000000".toList = .str "0x8000000000000000".toList := by decide
+example : deviates "1e999".toList = true ∧ resolvePlainRs "1e999".toList = .str "1e999".toList ∧
+    coreResolve "1e999".toList = .float .finite := by decide
+example : deviates "0x1F".toList = false ∧ deviates "-.5e3".toList = false ∧
+    deviates "+.inf".toList = false := by decide
+
+/-- `scalar_reread` for a reader that resolves with the core schema itself (any conforming YAML 1.2
+reader), outside the deviations: there `0x8000000000000000` is left plain by the emitter (the loader
+reads a string) but a core-schema reader reads an integer. -/
+theorem scalar_reread_core (inFlow : Bool) (s : List Char) (style : Style)
+    (hdev : deviates s = false) :
+    loadScalar coreResolve (valueCtx inFlow) (yamlQuoteStringWithStyle .v1 inFlow s style) =
+      some (.str s) := by
+  have hq : loadScalar coreResolve (valueCtx inFlow) (yamlQuoteString .v1 inFlow s) = some (.str s) := by
+    unfold yamlQuoteString
+    by_cases hs : s = []
+    · subst hs; simp [loadScalar, readSingle, readSingleSt]
+    · rw [if_neg hs]
+      by_cases hq : needsQuotingValue .v1 inFlow s = true
+      · rw [if_pos hq]; exact double_quote_reread _ _ s
+      · rw [if_neg hq]
+        cases s with
+        | nil => exact absurd rfl hs
+        | cons c rest =>
+          have f := value_plain_of_facts inFlow c rest
+            (valueFacts_of inFlow _ (by simpa [needsQuotingValue] using hq))
+          have hc : coreResolve (c :: rest) = .str (c :: rest) := by
+            rw [← resolve_agrees_core _ hdev]; exact f.2.1
+          simp [loadScalar, f.2.2.1, f.2.2.2, f.1, hc]
+  cases style with
+  | single =>
+    unfold yamlQuoteStringWithStyle
+    by_cases h : canSingleQuote s = true
+    · simp only [h, if_true]; exact single_quote_reread _ _ s h
+    · simp only [h]; exact hq
+  | double => exact double_quote_reread _ _ s
+  | other => exact hq
+
+example : loadScalar coreResolve .blockValue
+    (yamlQuoteString .v1 false "0x8000000000000000".toList) ≠
+    some (.str "0x8000000000000000".toList) := by decide
+
+/-! ## Whole documents on the DOM route (block mappings) -/
+
+section Block
+open SV.Yaml.Block
+
+/-- `emit_load` (PARTIAL): for every document that is a block mapping whose values are strings or
+non-empty nested block mappings, to any depth, and for every indentation step ≥ 1, the lines the
+(fixed) DOM emitter writes — keys through `yaml_quote_key`, values through `yaml_quote_string`,
+nested mappings one `indent_str` step deeper — load back to exactly that document.
+Missing from the modelled subset (covered only by the `cli` loop): sequences (block and the compact
+`- key:` form), flow collections and empty containers, non-string scalars, block scalars, comments,
+anchors/aliases inside the layout, multi-document streams, `--tab`, and the split of a physical line
+into its key and value tokens. -/
+theorem emit_load_partial (step : Nat) (hstep : 1 ≤ step) (t : Tree) (hw : wf t = true) :
+    loadDoc resolvePlainRs (emitLines .v1 step 0 t) = some t := by
+  have h := readBlock_emit resolvePlainRs .v1 step (by omega)
+    (fun top key => key_reread false top key) (fun s => quote_string_reread false s)
+    t 0 [] ((emitLines .v1 step 0 t).length + 1) hw (by simp) (by simp)
+  simp only [List.append_nil] at h
+  simp [loadDoc, h]
+
+/-- For every `--indent` value the CLI accepts (0..7) the fixed DOM emitter's step qualifies. -/
+theorem emit_load_indent_partial (n : Nat) (t : Tree) (hw : wf t = true) :
+    loadDoc resolvePlainRs (emitLines .v1 (domIndentWidth .v1 n) 0 t) = some t :=
+  emit_load_partial _ (indent_step_positive n).1 t hw
+
+/-- Non-vacuity: `a: {" k": "0x1F", c: {d: " x"}}`, `e: "true"`. -/
+example :
+    let t := Tree.cons "a".toList none
+      (.cons " k".toList (some "0x1F".toList) .nil
+        (.cons "c".toList none (.cons "d".toList (some " x".toList) .nil .nil) .nil))
+      (.cons "e".toList (some "true".toList) .nil .nil)
+    wf t = true ∧
+    (emitLines .v1 2 0 t).map (fun l => (l.indent, String.ofList l.key, l.value.map String.ofList)) =
+      [(0, "a", none), (2, "\" k\"", some "\"0x1F\""), (2, "c", none), (4, "d", some "\" x\""),
+       (0, "e", some "\"true\"")] := by decide
+
+/-- Before the fix, `-I 0` (step 0) wrote the nested mapping on its parent's column. -/
+example :
+    let t := Tree.cons "a".toList none (.cons "b".toList (some "x".toList) .nil .nil) .nil
+    loadDoc resolvePlainRs (emitLines .v0 (domIndentWidth .v0 0) 0 t) ≠ some t := by decide
+
+end Block
+
+/-! ## Anchors and aliases -/
+
+section Anchors
+open SV.Yaml.Anchor
+
+/-- `alias_sound` (DOM route: `enforce_anchor_soundness` then `emit_yaml_value`): for every value
+tree and anchor table in which no anchor mark lies below an alias-marked node, and for every notion
+of value equality, every alias that is printed refers to an anchor printed earlier in the same
+document — the most recent one of that name — whose value equals the alias's value.
+The side condition is necessary for the pass as a function over arbitrary tables (see
+`alias_sound_needs_opaque`); tables built by `to_owned_with_comments` do carry marks below alias
+nodes (they mirror the target's), and there soundness rests on that mirror invariant, which this
+model does not contain — the end-to-end loop (`ALIAS-FAIL`) covers it. -/
+theorem alias_sound (eqv : Forest → Forest → Bool) (f : Forest) (h : aliasOpaque f = true) :
+    sound eqv (emit (enforce eqv f)) = true := by
+  have := soundFrom_scan eqv f [] [] h
+  simpa [sound, enforce, soundFrom] using this
+
+/-- Non-vacuity: `a: &0 1`, `b: *0` (equal value) keeps the alias; `c: *0` with another value and
+`d: *7` (never declared) lose theirs. -/
+example :
+    let f := Forest.cons 0 (.declares 0) 1 .nil (.cons 1 (.aliases 0) 1 .nil
+      (.cons 2 (.aliases 0) 2 .nil (.cons 3 (.aliases 7) 1 .nil .nil)))
+    aliasOpaque f = true ∧
+    emit (enforce (fun a b => a == b) f) =
+      [.decl 0 (nodeVal 0 1 .nil), .alias 0 (nodeVal 0 1 .nil)] := by decide
+
+/-- The pass alone is NOT sound on arbitrary anchor tables: `a: &0 {k: 1}`, `b: *0` whose table
+entry carries `k: &1` below the alias, `c: *1`.  The scan records `&1` while walking below `b`,
+keeps `c: *1`, and the writer prints `b` as `*0` — so `&1` is never printed. -/
+theorem alias_sound_needs_opaque :
+    let f := Forest.cons 0 (.declares 0) 9 (.cons 5 .none 1 .nil .nil)
+      (.cons 1 (.aliases 0) 9 (.cons 5 (.declares 1) 1 .nil .nil)
+      (.cons 2 (.aliases 1) 1 .nil .nil))
+    aliasOpaque f = false ∧ sound (fun a b => a == b) (emit (enforce (fun a b => a == b) f)) = false := by
+  decide
+
+/-- K2 (streaming route, identity/navigation — no soundness pass, `YamlIndex` keeps one position per
+anchor name): `a: &0 1`, `b: *0`, `c: &0 2`, `d: *0` prints `a: 1`, `b: *0`, `c: &0 2`, `d: *0`.
+This refutes the streaming analogue of `alias_sound`; the DOM route prints the same document
+soundly. -/
+theorem stream_alias_unsound_redeclared :
+    let f := Forest.cons 0 (.declares 0) 1 .nil (.cons 1 (.aliases 0) 1 .nil
+      (.cons 2 (.declares 0) 2 .nil (.cons 3 (.aliases 0) 2 .nil .nil)))
+    sound (fun a b => a == b) (streamEmit f []) = false ∧
+    sound (fun a b => a == b) (emit (enforce (fun a b => a == b) f)) = true := by
+  decide
+
+/-- K3 (streaming route, navigation, upstream #1350): the result of `.a` on
+`k: &0 1`, `a: [*0]` is the subtree `[*0]`; the streaming writer prints the alias without its
+anchor, the DOM route (which would run the pass on the result) drops the mark. -/
+theorem stream_alias_unsound_navigation :
+    let sub := Forest.cons 1 .none 9 (.cons 0 (.aliases 0) 1 .nil .nil) .nil
+    sound (fun a b => a == b) (streamEmit sub []) = false ∧
+    sound (fun a b => a == b) (emit (enforce (fun a b => a == b) sub)) = true := by
+  decide
+
+end Anchors
 
 end SV.Props.C15
